@@ -27,6 +27,7 @@ def edit_prefix(rng, k):
 
 class Check(PropCheck):
     pid = 'C10'
+    pure_predicate = True
     rule = ('every traversal / listing from EVERY start id 0..size+1 (root, internal, leaf, removed slot, out of range) of '
             'exhaustive small shapes and random trees, also after prune/compress/merge/add_child/ladderize so that arena order '
             'differs from traversal order and removed slots are present; non-trivial: tree has >= 3 live nodes; distinct by op-list hash')
